@@ -95,6 +95,8 @@ class CalibratedLatticeEnsemble(keras.Model):
     """
     # Set our model_config
     self.model_config = model_config
+    # Kept for get_config().
+    self.model_dtype = tf.as_dtype(dtype).name
     # Check if we are constructing with already provided inputs/outputs, e.g.
     # when we are loading a model.
     if 'inputs' in kwargs and 'outputs' in kwargs:
@@ -144,7 +146,11 @@ class CalibratedLatticeEnsemble(keras.Model):
 
   def get_config(self):
     """Returns a configuration dictionary."""
-    config = {'name': self.name, 'trainable': self.trainable}
+    config = {
+        'name': self.name,
+        'trainable': self.trainable,
+        'dtype': self.model_dtype,
+    }
     config['model_config'] = keras.utils.legacy.serialize_keras_object(
         self.model_config
     )
@@ -157,6 +163,7 @@ class CalibratedLatticeEnsemble(keras.Model):
     )
     premade_lib.verify_config(model_config)
     return cls(model_config,
+               dtype=config.get('dtype', tf.float32),
                name=config.get('name', None),
                trainable=config.get('trainable', True))
 
@@ -196,6 +203,8 @@ class CalibratedLattice(keras.Model):
     """
     # Set our model_config
     self.model_config = model_config
+    # Kept for get_config().
+    self.model_dtype = tf.as_dtype(dtype).name
     # Check if we are constructing with already provided inputs/outputs, e.g.
     # when we are loading a model.
     if 'inputs' in kwargs and 'outputs' in kwargs:
@@ -254,7 +263,11 @@ class CalibratedLattice(keras.Model):
 
   def get_config(self):
     """Returns a configuration dictionary."""
-    config = {'name': self.name, 'trainable': self.trainable}
+    config = {
+        'name': self.name,
+        'trainable': self.trainable,
+        'dtype': self.model_dtype,
+    }
     config['model_config'] = keras.utils.legacy.serialize_keras_object(
         self.model_config
     )
@@ -267,6 +280,7 @@ class CalibratedLattice(keras.Model):
     )
     premade_lib.verify_config(model_config)
     return cls(model_config,
+               dtype=config.get('dtype', tf.float32),
                name=config.get('name', None),
                trainable=config.get('trainable', True))
 
@@ -306,6 +320,8 @@ class CalibratedLinear(keras.Model):
     """
     # Set our model_config
     self.model_config = model_config
+    # Kept for get_config().
+    self.model_dtype = tf.as_dtype(dtype).name
     # Check if we are constructing with already provided inputs/outputs, e.g.
     # when we are loading a model.
     if 'inputs' in kwargs and 'outputs' in kwargs:
@@ -367,7 +383,11 @@ class CalibratedLinear(keras.Model):
 
   def get_config(self):
     """Returns a configuration dictionary."""
-    config = {'name': self.name, 'trainable': self.trainable}
+    config = {
+        'name': self.name,
+        'trainable': self.trainable,
+        'dtype': self.model_dtype,
+    }
     config['model_config'] = keras.utils.legacy.serialize_keras_object(
         self.model_config
     )
@@ -380,6 +400,7 @@ class CalibratedLinear(keras.Model):
     )
     premade_lib.verify_config(model_config)
     return cls(model_config,
+               dtype=config.get('dtype', tf.float32),
                name=config.get('name', None),
                trainable=config.get('trainable', True))
 
@@ -419,6 +440,8 @@ class AggregateFunction(keras.Model):
     """
     # Set our model_config
     self.model_config = model_config
+    # Kept for get_config().
+    self.model_dtype = tf.as_dtype(dtype).name
     # Check if we are constructing with already provided inputs/outputs, e.g.
     # when we are loading a model.
     if 'inputs' in kwargs and 'outputs' in kwargs:
@@ -485,7 +508,11 @@ class AggregateFunction(keras.Model):
 
   def get_config(self):
     """Returns a configuration dictionary."""
-    config = {'name': self.name, 'trainable': self.trainable}
+    config = {
+        'name': self.name,
+        'trainable': self.trainable,
+        'dtype': self.model_dtype,
+    }
     config['model_config'] = keras.utils.legacy.serialize_keras_object(
         self.model_config
     )
@@ -498,6 +525,7 @@ class AggregateFunction(keras.Model):
     )
     premade_lib.verify_config(model_config)
     return cls(model_config,
+               dtype=config.get('dtype', tf.float32),
                name=config.get('name', None),
                trainable=config.get('trainable', True))
 
